@@ -193,7 +193,7 @@ CHECKS = {
               "id exactly when the status is not CLOSED/FAILED, as the object listed before or a new one for an unlisted — possibly reused — id; no other id "
               "changes; circuit events never touch streams and vice versa: C07_circ_event_frame), C07_circuit_latest (the object carries the line's "
               "status, flags, id, and PURPOSE/BUILD_FLAGS when present; no other object's record changes), C07_circuit_path / updatePath_path / circFinish_path (LAUNCHED empties the path, a live status takes exactly the hops the line names in order, CLOSED/FAILED keep it), C07_stream_latest (id, status, flags, source address/port of the line; no other stream object changes), C07_stream_target (host/port from the first NEW/NEWRESOLVE/SUCCEEDED line and never changed afterwards, address from the latest REMAP), Att.detach (after DETACHED/CLOSED/FAILED/circuit 0 "
-              "the stream is under no circuit — also when the circuit object had been closed first). Correspondence: every object ever created is dumped "
+              "the stream is under no circuit — also when the circuit object had been closed first), C07_names_frame / C07_names_only_addrmap (the names ADDRMAP lines gave to addresses: no other input touches them, and after any history they are exactly what the history's ADDRMAP lines alone give). Correspondence: every object ever created is dumped "
               "after every operation and compared by object identity."),
         note=TS_NOTE,
         technique="Lean 4: two-sided attachment invariant by induction over all input sequences of the live-state model + per-event listing theorems; differential correspondence with object identity",
